@@ -1,5 +1,5 @@
 \* thorough: strings <= 5 over 8 letters, names <= 4 over 9 letters, triples of 21 token kinds,
-\* nesting depth 2, all 32 option sets, renderings of strings/names <= 3 and of both nesting levels
+\* nesting depth 2, six option sets (all 32 on the real code), renderings of strings/names <= 3
 SPECIFICATION Spec
 CONSTANTS
   Mutation = "none"
@@ -10,9 +10,9 @@ CONSTANTS
   MaxName = 4
   TokKinds = {"null", "true", "false", "int", "negint", "zero", "real", "negreal", "realdot", "name", "namedig", "emptyname", "str", "emptystr", "hexstr", "arr", "emptyarr", "dict", "emptydict", "ref", "nilarr"}
   MaxToks = 3
-  OptSets <- AllOptSets
+  OptSets = {{}, {"Pretty"}, {"ContentStream"}, {"DictTypes", "TextStringUtf8"}, {"Pretty", "TrimStandardFonts"}, {"Pretty", "ContentStream", "DictTypes", "TextStringUtf8", "TrimStandardFonts"}}
   RenderStrMax = 3
   RenderNameMax = 3
-  RenderNest = {"nest1", "nest2"}
+  RenderNest = {"nest1"}
 INVARIANTS TypeOK RoundTrip Separable OptsIrrelevant RenderSound
 CHECK_DEADLOCK FALSE
